@@ -43,7 +43,7 @@ def fifo_configs():
             for layout, tx, rx in [("one_proc", 0, 0), ("two_proc", 0, 0), ("two_proc", 1, 1), ("two_proc", 1, 2), ("two_proc", 2, 1), ("two_proc", 3, 3), ("two_proc", 0, 2), ("two_proc", 2, 0)]:
                 if elem != "U8" and (tx, rx) not in ((0, 0), (1, 1)):
                     continue
-                for cons in ("sync", "receive") if layout == "two_proc" else ("sync",):
+                for cons in ("sync", "receive", "peek") if layout == "two_proc" else ("sync", "peek"):
                     for reset in (False, True):
                         if reset and elem != "U8":
                             continue
@@ -130,11 +130,19 @@ def render_fifo(cfg):
         "    self.got ^= True",
         f"    self.got_data <<= {dec.format(x='fifo.pop()')}",
     ]
+    if cfg["consumer"] == "peek":
+        # the consumer looks at the oldest element with front() and then removes it with pop()
+        cons = [
+            "if self.c_take and not fifo.empty():",
+            "    self.got ^= True",
+            f"    self.got_data <<= {dec.format(x='fifo.front()')}",
+            "    fifo.pop()",
+        ]
     if cfg["layout"] == "one_proc":
         L += ["        @pctx", "        def both():"] + ["            " + l for l in prod + cons]
     else:
         L += ["        @pctx", "        def producer():"] + ["            " + l for l in prod]
-        if cfg["consumer"] == "sync":
+        if cfg["consumer"] in ("sync", "peek"):
             L += ["        @cctx", "        def consumer():"] + ["            " + l for l in cons]
         else:
             L += [
